@@ -139,7 +139,8 @@ var settingsFns = map[string]map[string]bool{
 	vestingsc.ADDRESS: {"vestingsc-update-settings": true},
 	zcnsc.ADDRESS:     {"update-global-config": true, "update-authorizer-config": false},
 	minersc.ADDRESS:   {"update_settings": true, "update_globals": true, "add_hardfork": true},
-	storagesc.ADDRESS: {"update_settings": true, "commit_settings_changes": true},
+	// commit_settings_changes only applies what the owner staged with update_settings; anybody (in practice a miner) may send it
+	storagesc.ADDRESS: {"update_settings": true},
 }
 
 // settings node types per contract: a rejected/failed/unauthorised change must leave them byte-identical
